@@ -2426,12 +2426,16 @@ func (p *Posix) UploadPart(ctx context.Context, input *s3.UploadPartInput) (*s3.
 		}
 	}
 
-	_, err = io.Copy(f, tr)
+	written, err := io.Copy(f, tr)
 	if err != nil {
 		if errors.Is(err, syscall.EDQUOT) {
 			return nil, s3err.GetAPIError(s3err.ErrQuotaExceeded)
 		}
 		return nil, fmt.Errorf("write part data: %w", err)
+	}
+	if written < length {
+		// the body ended before the declared number of bytes
+		return nil, s3err.GetAPIError(s3err.ErrIncompleteBody)
 	}
 
 	dataSum := hash.Sum(nil)
@@ -2868,12 +2872,16 @@ func (p *Posix) PutObject(ctx context.Context, po s3response.PutObjectInput) (s3
 		rdr = hashRdr
 	}
 
-	_, err = io.Copy(f, rdr)
+	written, err := io.Copy(f, rdr)
 	if err != nil {
 		if errors.Is(err, syscall.EDQUOT) {
 			return s3response.PutObjectOutput{}, s3err.GetAPIError(s3err.ErrQuotaExceeded)
 		}
 		return s3response.PutObjectOutput{}, fmt.Errorf("write object data: %w", err)
+	}
+	if written < contentLength {
+		// the body ended before the declared number of bytes
+		return s3response.PutObjectOutput{}, s3err.GetAPIError(s3err.ErrIncompleteBody)
 	}
 
 	dir := filepath.Dir(name)
